@@ -5,6 +5,7 @@ package main
 // and exits (137) at the chosen hit.
 
 import (
+	"context"
 	"encoding/json"
 	"fmt"
 	"os"
@@ -18,7 +19,9 @@ import (
 
 	"github.com/oklog/ulid/v2"
 
+	"github.com/prometheus/prometheus/model/histogram"
 	"github.com/prometheus/prometheus/model/labels"
+	"github.com/prometheus/prometheus/storage"
 	"github.com/prometheus/prometheus/util/verifhook"
 
 	"verif/harness/internal/tsdbx"
@@ -177,6 +180,17 @@ func (h *hooker) blockDirs() []string {
 	return out
 }
 
+// snapshot copies the directory and the log as they are now (h.mu held).
+func (h *hooker) snapshot() {
+	h.snapN++
+	d := filepath.Join(h.snapDir, fmt.Sprintf("s%d", h.snapN))
+	if err := copyTree(h.dir, d); err == nil {
+		if b, err := os.ReadFile(h.logPath); err == nil {
+			os.WriteFile(d+".log", b, 0o644)
+		}
+	}
+}
+
 func (h *hooker) handle(site string, _ int) {
 	if !strings.HasPrefix(site, "c03.") {
 		return
@@ -290,13 +304,7 @@ func (h *hooker) handle(site string, _ int) {
 		key := fmt.Sprintf("%s/%d", site, kind)
 		h.snapSeen[key]++
 		if h.snapSeen[key] <= 1 || int(fnv(site, n, h.snapSeed)%1000) < h.snapRate {
-			h.snapN++
-			d := filepath.Join(h.snapDir, fmt.Sprintf("s%d", h.snapN))
-			if err := copyTree(h.dir, d); err == nil {
-				if b, err := os.ReadFile(h.logPath); err == nil {
-					os.WriteFile(d+".log", b, 0o644)
-				}
-			}
+			h.snapshot()
 		}
 	}
 	h.mu.Unlock()
@@ -316,6 +324,58 @@ func (h *hooker) handle(site string, _ int) {
 			h.runTx(next)
 		}
 	}
+}
+
+// histograms of the four histogram kinds with Sum = code, Count 3, two buckets (1 and 2)
+func mkHist(k int, code int64) (*histogram.Histogram, *histogram.FloatHistogram) {
+	switch k {
+	case 1:
+		return &histogram.Histogram{Schema: 0, Count: 3, Sum: float64(code), PositiveSpans: []histogram.Span{{Offset: 0, Length: 2}}, PositiveBuckets: []int64{1, 1}}, nil
+	case 2:
+		return nil, &histogram.FloatHistogram{Schema: 0, Count: 3, Sum: float64(code), PositiveSpans: []histogram.Span{{Offset: 0, Length: 2}}, PositiveBuckets: []float64{1, 2}}
+	case 3:
+		return &histogram.Histogram{Schema: histogram.CustomBucketsSchema, CustomValues: []float64{1, 2}, Count: 3, Sum: float64(code), PositiveSpans: []histogram.Span{{Offset: 0, Length: 2}}, PositiveBuckets: []int64{1, 1}}, nil
+	case 4:
+		return nil, &histogram.FloatHistogram{Schema: histogram.CustomBucketsSchema, CustomValues: []float64{1, 2}, Count: 3, Sum: float64(code), PositiveSpans: []histogram.Span{{Offset: 0, Length: 2}}, PositiveBuckets: []float64{1, 2}}
+	}
+	return nil, nil
+}
+
+// appendAll runs one appender (classic or V2) over the samples of op and commits / rolls back.
+func appendAll(db *tsdbx.DB, op WOp) (res []tsdbx.ErrKind, endErr error) {
+	ctx := context.Background()
+	commit := op.Kind == "tx"
+	if op.V2 {
+		app := db.DB.AppenderV2(ctx)
+		for _, s := range op.Samples {
+			h, fh := mkHist(s.K, s.V)
+			v := 0.0
+			if s.K == 0 {
+				v = float64(s.V)
+			}
+			_, err := app.Append(0, seriesLabels(s.S), 0, s.T, v, h, fh, storage.AppendV2Options{})
+			res = append(res, tsdbx.Kind(err))
+		}
+		if commit {
+			return res, app.Commit()
+		}
+		return res, app.Rollback()
+	}
+	app := db.DB.Appender(ctx)
+	for _, s := range op.Samples {
+		var err error
+		if s.K == 0 {
+			_, err = app.Append(0, seriesLabels(s.S), s.T, float64(s.V))
+		} else {
+			h, fh := mkHist(s.K, s.V)
+			_, err = app.AppendHistogram(0, seriesLabels(s.S), s.T, h, fh)
+		}
+		res = append(res, tsdbx.Kind(err))
+	}
+	if commit {
+		return res, app.Commit()
+	}
+	return res, app.Rollback()
 }
 
 func seriesLabels(sid int) labels.Labels {
@@ -368,18 +428,14 @@ func childMain(dir, wlPath, logPath, crash string, classify bool, snapDir string
 	runTx := func(i int) error {
 		op := wl.Ops[i]
 		cl.line(true, "begin %d", i)
-		var reqs []tsdbx.AppendReq
-		for _, s := range op.Samples {
-			reqs = append(reqs, tsdbx.AppendReq{Labels: seriesLabels(s.S), T: s.T, V: float64(s.V)})
-		}
-		res, err := db.Tx(reqs, op.Kind == "tx")
+		res, err := appendAll(db, op)
 		codes := make([]int, len(res))
 		for j, r := range res {
 			codes[j] = int(r)
 		}
 		cj, _ := json.Marshal(codes)
 		cl.line(false, "res %d %s", i, cj)
-		if classify && op.Kind == "tx" && err == nil && !op.Nested {
+		if classify && op.Kind == "tx" && err == nil && !op.Nested && !wl.Kinds {
 			// which accepted samples sit in the out-of-order part of the head
 			oooSet := map[[2]int64]bool{}
 			for _, hs := range db.HeadDump() {
@@ -405,6 +461,12 @@ func childMain(dir, wlPath, logPath, crash string, classify bool, snapDir string
 		} else {
 			cl.line(true, "ack %d", i)
 		}
+		if wl.Kinds && hk.snapDir != "" {
+			// a kill right after the acknowledgement: the WAL is the only durable copy
+			hk.mu.Lock()
+			hk.snapshot()
+			hk.mu.Unlock()
+		}
 		return err
 	}
 	hk.runTx = func(i int) { runTx(i) }
@@ -420,6 +482,8 @@ func childMain(dir, wlPath, logPath, crash string, classify bool, snapDir string
 		switch op.Kind {
 		case "delete":
 			opErr = db.Delete(op.Mint, op.Maxt, selMatcher(op.Sel))
+		case "restart":
+			opErr = db.Reopen()
 		case "compact":
 			opErr = db.CompactWithPlanner()
 		case "compactooo":
